@@ -1418,10 +1418,18 @@ impl<Target: Composer> AdditionalBuilder<Target> {
             &mut OptBuilder<'_, Target>,
         ) -> Result<(), Target::AppendError>,
     {
-        self.authority.answer.builder.push(
+        // The closure may change the rcode in the message header through
+        // `OptBuilder::set_rcode`. Truncating the target on failure doesn’t
+        // undo that, so we have to.
+        let rcode = self.header().rcode();
+        let res = self.authority.answer.builder.push(
             |target| OptBuilder::new(target)?.build(op),
             |counts| counts.inc_arcount(),
-        )
+        );
+        if res.is_err() {
+            self.header_mut().set_rcode(rcode);
+        }
+        res
     }
 }
 
